@@ -16,6 +16,10 @@
 //! `bqerr bits= bb= nb= n= k= out= m= batch=`: argument checks of `BlockQuantizedMatrix::new` and
 //!   `batched_gemm_uninit` (`ok` or `err:<class>`), incl. K that is not a whole number of blocks.
 //! `bqscales bb= nb= n= sn= snb=`: scales tensor whose shape does not match the quantized data.
+//! `sidx mode= isa= bs= nb=`: scale index the real kernel uses for every element position (one-hot LHS
+//!   x all-ones weights with scale 2^b for block b), per ISA hook; compared with the Lean transcription
+//!   of the kernel's index arithmetic (`scaleIdxFloat` / `scaleIdxInt8`) and with k / bs (PROPFAIL).
+//! `hot … col= kb= byte= nib= q=`: one-hot weight probe of the nibble order / [N, k_blocks, bs/2] layout.
 //! `# tol …` lines (not compared with the model): random real-valued data, PROPFAIL only if the
 //!   result differs from dequantize + naive f64 by more than `1e-4·Σ|a_k·w_k| + 1e-6` (Float, gemm)
 //!   plus the LHS quantisation bound `1.01·Σ_k (absmax_block/254)·|w_k|` (Int8).
@@ -343,6 +347,135 @@ fn scales_case(out: &mut Out, bb: usize, nb: usize, n: usize, sn: usize, snb: us
     out.case(&req, &ans, fail.as_deref(), true);
 }
 
+/// Run one row through a per-ISA hook (`mode` = "float" | "int8").
+fn hook_row(mode: &str, isa: &str, lhs: &[f32], mat: BlockQuantizedMatrix<f32>, n: usize) -> Option<Vec<f32>> {
+    let mut out: Vec<MaybeUninit<f32>> = vec![MaybeUninit::new(f32::NAN); n];
+    let ok = if mode == "int8" {
+        hook::vec_dot_matrix_int8(isa, lhs, mat, &mut out)
+    } else {
+        hook::vec_dot_matrix_float(isa, lhs, mat, &mut out)
+    };
+    ok.then(|| out.iter().map(|x| unsafe { x.assume_init() }).collect())
+}
+
+/// `sidx mode= isa= bs= nb=`: one-hot LHS at every position k x all-ones weights with scale 2^b for
+/// block b: the output is the scale of the block index the real kernel used for position k.
+fn sidx_case(out: &mut Out, mode: &str, isa: &str, bs: usize, nb: usize) {
+    let k_total = nb * bs;
+    let req = format!("sidx mode={mode} isa={isa} bs={bs} nb={nb}");
+    let qf = vec![0x99u8; nb * bs / 2];
+    let sf: Vec<f32> = (0..nb).map(|b| 2f32.powi(b as i32)).collect();
+    let unit = if mode == "int8" { 127.0f32 } else { 1.0 };
+    let res = hcommon::catch(|| -> Option<Vec<i64>> {
+        let qv = NdTensorView::from_data([1, nb, bs / 2], qf.as_slice());
+        let sv = NdTensorView::from_data([1, nb], sf.as_slice());
+        let mat = BlockQuantizedMatrix::new(Contiguous::new(qv).unwrap(), Contiguous::new(sv).unwrap(), 4).unwrap();
+        let mut idx = vec![];
+        for k in 0..k_total {
+            let mut lhs = vec![0f32; k_total];
+            lhs[k] = unit;
+            let v = hook_row(mode, isa, &lhs, mat, 1)?[0] as f64 / unit as f64;
+            let l = v.log2();
+            idx.push(if v > 0.0 && l.fract() == 0.0 { l as i64 } else { -1 });
+        }
+        Some(idx)
+    });
+    let (ans, fail) = match res {
+        Ok(Some(idx)) => {
+            let bad = (0..k_total).find(|&k| idx[k] != (k / bs) as i64);
+            (
+                format!("idx={}", rle(&idx)),
+                bad.map(|k| format!("{mode} kernel on {isa}: element {k} (block {}) was scaled with the scale of block {}", k / bs, idx[k])),
+            )
+        }
+        Ok(None) => return, // ISA not available
+        Err(m) => ("panic".to_string(), Some(format!("panic {m}"))),
+    };
+    out.bucket(&format!("sidx_{mode}_{isa}_bs{bs}"));
+    out.case(&req, &ans, fail.as_deref(), true);
+}
+
+/// `hot …`: a single non-zero dequantised weight at (col, block kb, byte, nibble); unit LHS vectors.
+fn hot_case(out: &mut Out, mode: &str, isa: &str, bs: usize, nb: usize, n: usize, col: usize, kb: usize, byte: usize, nib: usize, q: u8) {
+    let k_total = nb * bs;
+    let req = format!("hot mode={mode} isa={isa} bs={bs} nb={nb} n={n} col={col} kb={kb} byte={byte} nib={nib} q={q}");
+    let mut qf = vec![0x88u8; n * nb * bs / 2];
+    let pos = (col * nb + kb) * (bs / 2) + byte;
+    qf[pos] = if nib == 0 { 0x80 | q } else { (q << 4) | 0x08 };
+    let sf: Vec<f32> = (0..n * nb).map(|i| (1u32 << ((i / nb + i % nb) % 4)) as f32 / 2.0).collect();
+    let unit = if mode == "int8" { 127.0f32 } else { 1.0 };
+    let res = hcommon::catch(|| -> Option<Vec<(usize, usize, f64)>> {
+        let qv = NdTensorView::from_data([n, nb, bs / 2], qf.as_slice());
+        let sv = NdTensorView::from_data([n, nb], sf.as_slice());
+        let mat = BlockQuantizedMatrix::new(Contiguous::new(qv).unwrap(), Contiguous::new(sv).unwrap(), 4).unwrap();
+        let mut hits = vec![];
+        for k in 0..k_total {
+            let mut lhs = vec![0f32; k_total];
+            lhs[k] = unit;
+            let v = hook_row(mode, isa, &lhs, mat, n)?;
+            for (c, &y) in v.iter().enumerate() {
+                if y != 0.0 {
+                    hits.push((k, c, y as f64 / unit as f64));
+                }
+            }
+        }
+        Some(hits)
+    });
+    // independent expectation: element index of (kb, byte, nib) in K order, low nibble first
+    let want_k = kb * bs + 2 * byte + nib;
+    let want_v2 = (q as i64 - 8) * (1i64 << ((col + kb) % 4));
+    let (ans, fail) = match res {
+        Ok(Some(hits)) => {
+            if hits.len() == 1 {
+                let (k, c, v) = hits[0];
+                let ans = format!("k={k} col={c} val2={}", (v * 2.0) as i64);
+                let ok = k == want_k && c == col && (v * 2.0) == want_v2 as f64;
+                (ans, (!ok).then(|| format!("{mode} on {isa}: the weight stored at block {kb} byte {byte} nibble {nib} of column {col} acted at LHS position {k}, column {c} with value {v}; expected position {want_k}, value {}", want_v2 as f64 / 2.0)))
+            } else {
+                (format!("count={}", hits.len()), Some(format!("{mode} on {isa}: {} (position, column) pairs saw the single non-zero weight", hits.len())))
+            }
+        }
+        Ok(None) => return,
+        Err(m) => ("panic".to_string(), Some(format!("panic {m}"))),
+    };
+    out.bucket(&format!("hot_{mode}_{isa}"));
+    out.case(&req, &ans, fail.as_deref(), true);
+}
+
+fn index_probes(out: &mut Out, rng: &mut Rng, thorough: bool) {
+    let float_isas: Vec<&str> = hook::FLOAT_ISAS.to_vec();
+    let int8_isas: Vec<&str> = rten_gemm::verif::INT8_DOT_ISAS.to_vec();
+    // block counts giving 0..7 tail blocks for every scales-per-vblock arm, and several vblocks
+    let nbs: &[usize] = if thorough { &[1, 2, 3, 4, 5, 6, 7, 8, 9, 10, 11, 12, 13, 14, 15, 16, 17, 19, 21, 22, 23] } else { &[1, 2, 3, 5, 6, 7, 8, 11, 13, 14, 15, 23] };
+    for &bs in &[16usize, 32, 64, 128, 256] {
+        for &nb in nbs {
+            if nb * bs > if thorough { 2048 } else { 768 } || nb > 23 {
+                continue;
+            }
+            for isa in &float_isas {
+                sidx_case(out, "float", isa, bs, nb);
+            }
+            for isa in &int8_isas {
+                sidx_case(out, "int8", isa, bs, nb);
+            }
+        }
+    }
+    let n_hot = if thorough { 200 } else { 30 };
+    for _ in 0..n_hot {
+        let bs = *rng.pick(&[16usize, 32, 64, 128]);
+        let nb = 1 + rng.usize_below((256 / bs).max(1) + 2);
+        let n = 1 + rng.usize_below(5);
+        let (col, kb, byte, nib) = (rng.usize_below(n), rng.usize_below(nb), rng.usize_below(bs / 2), rng.usize_below(2));
+        let q = *rng.pick(&[0u8, 1, 7, 9, 15, 12]);
+        for isa in &float_isas {
+            hot_case(out, "float", isa, bs, nb, n, col, kb, byte, nib, q);
+        }
+        for isa in &int8_isas {
+            hot_case(out, "int8", isa, bs, nb, n, col, kb, byte, nib, q);
+        }
+    }
+}
+
 fn tol_case(out: &mut Out, rng: &mut Rng) {
     let bs = *rng.pick(&[16usize, 32, 64, 128, 256]);
     let nb = 1 + rng.usize_below((1024 / bs).max(1));
@@ -646,6 +779,7 @@ fn run(args: &Args) {
             scales_case(&mut out, bb, nb, n, sn, snb);
         }
     }
+    index_probes(&mut out, &mut rng, args.thorough);
     let n_exact = if args.thorough { 6000 } else { 450 };
     for i in 0..n_exact {
         let c = gen_exact(&mut rng);
